@@ -966,10 +966,10 @@ PROPERTY = Property(
                                     "that takes masks (DQN, DDQN, Rainbow, CQN, NeuralUCB, NeuralTS, MADDPG, MATD3 on Discrete; PPO, "
                                     "IPPO on all three kinds) x weight scaling {0, 1, 30} x every exploration setting, batched and single")),
         Obligation("single_agent", run_single, strategy=single_strategy, enumerate=single_grid,
-                   examples={"quick": 50, "thorough": 500}, shards={"quick": 5, "thorough": 16},
+                   examples={"quick": 90, "thorough": 500}, shards={"quick": 5, "thorough": 16},
                    shrink_budget={"quick": 30, "thorough": 300}),
         Obligation("multi_agent", run_multi, strategy=multi_strategy, enumerate=multi_grid,
-                   examples={"quick": 45, "thorough": 400}, shards={"quick": 3, "thorough": 16},
+                   examples={"quick": 80, "thorough": 400}, shards={"quick": 3, "thorough": 16},
                    shrink_budget={"quick": 30, "thorough": 300}),
     ],
     assumptions=[
